@@ -131,6 +131,22 @@ pub fn to_track_config(t: &TrackCfg) -> mp4::TrackConfig {
         }),
         Kind::Ttxt => mp4::MediaConfig::TtxtConfig(mp4::TtxtConfig {}),
     };
+    // A configuration that equals what the library's `From` conversions produce (natural track
+    // type, timescale 1000, language "und") is built *through* those conversions - half of them
+    // through `From<MediaConfig>`, half through the per-codec `From` - so that the public
+    // shortcuts are part of the simulated API surface; the model keeps judging the plain values.
+    if t.timescale == 1000 && t.language == "und" && t.track_type == t.kind.natural_track_type() {
+        if (t.width as u32 ^ t.bitrate) & 1 == 0 {
+            return mp4::TrackConfig::from(media_conf);
+        }
+        return match media_conf {
+            mp4::MediaConfig::AvcConfig(c) => mp4::TrackConfig::from(c),
+            mp4::MediaConfig::HevcConfig(c) => mp4::TrackConfig::from(c),
+            mp4::MediaConfig::Vp9Config(c) => mp4::TrackConfig::from(c),
+            mp4::MediaConfig::AacConfig(c) => mp4::TrackConfig::from(c),
+            mp4::MediaConfig::TtxtConfig(c) => mp4::TrackConfig::from(c),
+        };
+    }
     mp4::TrackConfig {
         track_type,
         timescale: t.timescale,
